@@ -21,9 +21,7 @@ theorem time_monotone_pending_in_future (prog : Prog) (ord : Oracle) (t0 : Nat) 
     let s := run prog ord (initSim prog t0 tol) cmds
     t0 ≤ s.now ∧ ∀ e ∈ s.queue, s.now < e.time := by
   have h0 := init_inv prog t0 tol
-  have hn : (initSim prog t0 tol).now = t0 := by
-    unfold initSim; rw [(doSync_inv prog t0 _ (by
-      refine ⟨?_, ?_, ?_, ?_⟩ <;> simp [writeTime, St.init, Sorted])).2.1]; rfl
+  have hn : (initSim prog t0 tol).now = t0 := init_now prog t0 tol
   have := run_inv prog ord _ cmds h0
   exact ⟨by rw [hn] at this; exact this.2, this.1.future⟩
 
